@@ -5,6 +5,7 @@ C02.2  keyword and type vocabulary of every schema object literal is JSON Schema
 C02.3  keyword co-occurrence: prefixItems needs minItems; `pattern` must be a regular expression source
 C02.4  every emitted $ref is preceded by the ensure-definition sequence for the same name
 """
+import re
 import tsast
 from tsast import walk, s, unparen, method_call
 from rules import ts_common
@@ -553,6 +554,15 @@ def run(cx, rep):
     # ---------------------------------------------------------------- C02.16
     rep.rule("C02.16", "a local dictionary read by data-derived keys has no prototype")
     data_keyed_dict_rule(mod, rep, "C02.16")
+    # ---------------------------------------------------------------- C02.17
+    rep.rule("C02.17", "the allOf fast path never folds the closed shape of an index signature into the other members")
+    closed_shape_merge_rule(fam, mod, rep, "C02.17")
+    # ---------------------------------------------------------------- C02.18
+    rep.rule("C02.18", "a subschema built from an index signature does not constrain the declared keys")
+    index_subschema_rule(fam, mod, rep, "C02.18")
+    # ---------------------------------------------------------------- C02.19
+    rep.rule("C02.19", "a discriminated union is only built on a property that is required in every member")
+    discriminator_required_rule(cx, rep, "C02.19")
     # ---------------------------------------------------------------- C02.15
     rep.rule("C02.15", "the canonical rendering that decides whether two schemas are equal keeps the order of arrays")
     canonical_json_rule(mod, rep, "C02.15")
@@ -694,3 +704,256 @@ def data_keyed_dict_rule(mod, rep, rid):
                    mod.loc(x), sample={"fn": fname, "dictionary": nm, "key": s(key)[:40]})
     rep.ob(rid, "scan", True, sample={"functions_scanned": len(fns), "plain_dictionaries_read_by_data_keys": n})
     rep.floor(rid, "functions scanned for data-keyed plain dictionaries", len(fns), 100)
+
+
+def closed_shape_merge_rule(fam, mod, rep, rid):
+    """`additionalProperties: false` has two meanings in the printed schemas.  Printed for an object WITHOUT index
+    signature it lists the declared keys (the validator tolerates others unless strict mode is on), and the allOf fast
+    path may fold several such members into one object.  Printed for an object WITH an index signature whose value is
+    `never` (`Record<string, never>`) it forbids every key, also the ones the OTHER members of an intersection declare.
+    Folding such a member drops that constraint: `Record<string, never> & {a: string}` printed
+    `{properties: {a}, additionalProperties: false}`, which accepts `{a: "x"}`; the validator rejects it.
+    Decided: (1) the object literals with `additionalProperties: false` and only mergeable keys that a class with an
+    index-signature field returns from schema() - those NOT under a condition establishing `no index signature` are
+    the index-derived closed shapes; (2) if there is one, every call from a schema() method into the folding function
+    (a module function that reaches the predicate testing `additionalProperties !== false`) lies under a condition that
+    no member has an index signature (an atom over a function / method that reads the index-signature field)."""
+    # the predicate and its vocabulary
+    preds = {}
+    for fname, d in mod.functions.items():
+        if d.get("body") is None:
+            continue
+        for x in walk(d["body"]):
+            if x["type"] == "BinaryExpression" and x["operator"] in ("!==", "!=", "===", "==") and s(x["left"]).endswith(".additionalProperties") \
+                    and unparen(x["right"]).get("type") == "BooleanLiteral" and unparen(x["right"])["value"] is False:
+                preds[fname] = d
+    vocab = None
+    for fname, d in preds.items():
+        for x in walk(d["body"]):
+            mc = method_call(x) if x["type"] == "CallExpression" else None
+            if mc and mc[1] == "has" and unparen(mc[0]).get("type") == "Identifier":
+                init = (mod.vars.get(unparen(mc[0])["value"]) or (None, None, None))[1]
+                if init is not None:
+                    keys = [unparen(e["expression"]).get("value") for a in walk(init) if a["type"] == "ArrayExpression" for e in a["elements"] if e and unparen(e["expression"]).get("type") == "StringLiteral"]
+                    if keys:
+                        vocab = set(keys)
+    folders = set(preds)
+    for _ in range(2):
+        for fname, d in mod.functions.items():
+            if d.get("body") is None or fname in folders:
+                continue
+            if any(x["type"] == "CallExpression" and unparen(x["callee"]).get("type") == "Identifier" and unparen(x["callee"])["value"] in folders for x in walk(d["body"])):
+                folders.add(fname)
+    # (1) index-derived closed shapes
+    derived = []
+    n_plain = 0
+    ix_classes = {}
+    for cname in sorted(fam.concrete()):
+        ixf = ts_common.index_signature_field(fam, cname)
+        if not ixf:
+            continue
+        ix_classes[cname] = ixf
+        _, m = fam.resolve_method(cname, "schema")
+        if not m or m["function"].get("body") is None:
+            continue
+        fn = m["function"]
+        names = {"this.%s" % ixf}
+        for x in walk(fn):
+            if x["type"] == "VariableDeclarator" and x["id"].get("type") == "Identifier" and x.get("init") is not None:
+                mc = method_call(unparen(x["init"]))
+                if mc and mc[1] == "map" and s(mc[0]) in names:
+                    names.add(x["id"]["value"])
+        for o in walk(fn):
+            if o["type"] != "ObjectExpression":
+                continue
+            keys = {}
+            for p in o["properties"]:
+                if p["type"] == "KeyValueProperty":
+                    keys[tsast.prop_key(p["key"])] = p["value"]
+            ap = keys.get("additionalProperties")
+            if ap is None or unparen(ap).get("type") != "BooleanLiteral" or unparen(ap)["value"] is not False:
+                continue
+            if vocab is not None and any(k not in vocab for k in keys):
+                continue
+            plain = False
+            for a_, v_ in ts_common.known_atoms(fn, o).items():
+                a2 = a_.replace("(", "").replace(")", "").replace(" ", "")
+                for nm in names:
+                    ln = nm + ".length"
+                    if (a2 in (ln + "===0", ln + "==0", ln + "<1") and v_ is True) or (a2 in (ln + ">0", ln + "!==0", ln + "!=0", ln + ">=1", ln) and v_ is False):
+                        plain = True
+            if plain:
+                n_plain += 1
+            else:
+                derived.append((cname, o))
+    rep.floor(rid, "closed object shapes printed by classes with an index-signature field", n_plain + len(derived), 1)
+    if not derived:
+        rep.ob(rid, "no-index-derived-closed-shape", True, sample={"plain_closed_shapes": n_plain})
+        return
+    # names that read the index-signature field
+    readers = set(ix_classes.values())
+    for _ in range(2):
+        for fname, d in mod.functions.items():
+            if d.get("body") is not None and any(x["type"] == "Identifier" and x["value"] in readers for x in walk(d["body"])):
+                readers.add(fname)
+        for cname in ix_classes:
+            for mname, m in fam.classes[cname].methods.items():
+                b = m["function"].get("body")
+                if b is not None and mname not in ("schema", "validate", "parseAfterValidation", "reportDecodeError", "hash", "hash256", "describeTypeExpr", "describeChildren") \
+                        and any(x["type"] == "Identifier" and x["value"] in readers for x in walk(b)):
+                    readers.add(mname)
+    n_calls = 0
+    for cname in sorted(fam.concrete()):
+        _, m = fam.resolve_method(cname, "schema")
+        if not m or m["function"].get("body") is None:
+            continue
+        fn = m["function"]
+        for x in walk(fn):
+            if x["type"] == "CallExpression" and unparen(x["callee"]).get("type") == "Identifier" and unparen(x["callee"])["value"] in folders:
+                n_calls += 1
+                ok = False
+                for a_, v_ in ts_common.known_atoms(fn, x).items():
+                    e = ts_common._NODES.get(a_)
+                    ids = {i["value"] for i in walk(e) if i["type"] == "Identifier"} if e is not None else set()
+                    if not (ids & readers):
+                        continue
+                    if ".some(" in a_ and v_ is False:
+                        ok = True
+                    elif ".every(" in a_ and v_ is True and "!" in a_:
+                        ok = True
+                    elif ".some(" not in a_ and ".every(" not in a_ and v_ is False and not a_.lstrip("(").startswith("!"):
+                        ok = True
+                rep.ob(rid, "%s.schema/fold-excludes-index-signatures" % cname, ok,
+                       "%s.schema() folds the member schemas into one object (%s) although a member may be an object with an index signature, whose closed shape (`additionalProperties: false` printed for an index signature of `never`) forbids every key: folding keeps the other members' declared keys and drops that constraint - `Record<string, never> & {a: string}` then prints a schema that accepts {a: \"x\"} while validate() rejects it" % (cname, s(x["callee"])),
+                       mod.loc(x), sample={"index_derived_closed_shapes": [mod.loc(o) for _, o in derived], "readers": sorted(readers)})
+    rep.floor(rid, "calls into the schema-folding function", n_calls, 1)
+
+
+def index_subschema_rule(fam, mod, rep, rid):
+    """An index signature constrains the keys the object does NOT declare.  In JSON Schema `propertyNames` and
+    `additionalProperties` of a subschema constrain EVERY key the subschema does not list under `properties` /
+    `patternProperties` itself - sibling members of an `allOf` do not count.  So a subschema built from an index
+    signature that is combined with the declared properties must list (exempt) the declared keys; otherwise a
+    declared key has to satisfy the index signature too: for `{a: string; [k: `x${string}`]: number}` the exact member
+    {a: "s"} is invalid against the printed schema (the name `a` does not match, the value is not a number).
+    Decided on schema() of every class with an index-signature field: an object literal carrying `propertyNames`
+    that is used where the object may have declared properties (not under a condition establishing that there are
+    none) has a `properties` / `patternProperties` entry of its own."""
+    n = 0
+    for cname in sorted(fam.concrete()):
+        ixf = ts_common.index_signature_field(fam, cname)
+        if not ixf:
+            continue
+        _, m = fam.resolve_method(cname, "schema")
+        if not m or m["function"].get("body") is None:
+            continue
+        fn = m["function"]
+        # locals that hold index subschemas: initialised from an expression that contains (also through a private
+        # helper) an object literal with `propertyNames`
+        def index_literals(e):
+            out = []
+            for o in tsast.walk_inl(mod, cname, e):
+                if o["type"] == "ObjectExpression":
+                    keys = {tsast.prop_key(p["key"]) for p in o["properties"] if p["type"] == "KeyValueProperty"}
+                    if "propertyNames" in keys:
+                        out.append((o, keys))
+            return out
+        holders = {}
+        for x in walk(fn):
+            if x["type"] == "VariableDeclarator" and x["id"].get("type") == "Identifier" and x.get("init") is not None:
+                ls = index_literals(x["init"])
+                if ls:
+                    holders[x["id"]["value"]] = ls
+        # uses: return statements (through annotateSchema) mentioning the literal or a holder
+        for r in tsast.walk_no_nested_fn(fn["body"]):
+            if r["type"] != "ReturnStatement" or r.get("argument") is None:
+                continue
+            used = index_literals(r["argument"])
+            for y in walk(r["argument"]):
+                if y["type"] == "Identifier" and y["value"] in holders:
+                    used += holders[y["value"]]
+            if not used:
+                continue
+            none_declared = False
+            for a_, v_ in ts_common.known_atoms(fn, r).items():
+                a2 = a_.replace("(", "").replace(")", "").replace(" ", "")
+                if "properties" in a2 and ".length" in a2 and ((a2.endswith("===0") or a2.endswith("==0")) and v_ is True or (a2.endswith(">0") or a2.endswith("!==0")) and v_ is False):
+                    none_declared = True
+            if none_declared:
+                continue
+            for o, keys in list({id(o_): (o_, k_) for o_, k_ in used}.values()):
+                n += 1
+                rep.ob(rid, "%s.schema/index-subschema-exempts-declared-keys" % cname, bool(keys & {"properties", "patternProperties"}),
+                       "%s.schema() combines the declared properties with a subschema built from the index signature (`propertyNames`%s) that does not list the declared keys: in JSON Schema that subschema constrains EVERY key, so a declared key must match the index signature's key type and its value the index signature's value type - `{a: string; [k: `x${string}`]: number}` prints a schema against which its member {a: \"s\"} is invalid" % (cname, ", `additionalProperties`" if "additionalProperties" in keys else ""),
+                       mod.loc(o), sample={"keys_of_the_subschema": sorted(keys)})
+    rep.floor(rid, "index subschemas combined with declared properties", n, 1)
+
+
+def discriminator_required_rule(cx, rep, rid):
+    """A union of objects is emitted as a discriminated union (dispatch on one property: the validator rejects a value
+    as soon as that property is missing) only if the property is REQUIRED in every member.  The flat schema still
+    prints the members as they are, so with an optional discriminator `{y: "s"}` is valid against anyOf[A, B] and
+    rejected by the validator.  Decided on the printer functions that call the builder of the discriminated form:
+    the candidate property of each member is an `Optionality<Runtype>`; it must be taken apart by the `Required`
+    pattern only - no accessor that forgets the optionality (`inner`, `inner_move`, anything that turns `Optional`
+    into `Required`) and no arm that yields the payload of `Optional` - and there is at least one such test."""
+    F = cx.rs
+    from facts import walk as hwalk, walk_inlined
+    builders = [g for g, t in F.hir.items() if F.fns.get(g) is not None and "/src/print/" in (F.fns[g].file or "") and F.fns[g].kind != "Closure"
+                and any(n["k"] == "Lit" and n.get("v") == "AnyOfDiscriminatedRuntype" for n in hwalk(t["body"]))]
+    if len(builders) != 1:
+        rep.anchor_missing(rid, "the printer function that builds `new AnyOfDiscriminatedRuntype(..)`; found %d" % len(builders))
+        return
+    b = builders[0]
+    # accessors that forget the optionality: inherent methods of Optionality that hand out the payload, or build
+    # `Required` in an arm for `Optional`
+    erasing = set()
+    for g, f in F.fns.items():
+        if not (f.impl_self or "").startswith("ast::runtype::Optionality") or "<" in g.split("::")[0] or g.startswith("<"):
+            continue
+        out = f.output or ""
+        if out == "bool":
+            continue
+        if "Optionality" not in out:
+            erasing.add(g)
+        elif g in F.hir:
+            for m in hwalk(F.hir[g]["body"]):
+                if m["k"] == "Match":
+                    for a in m["arms"]:
+                        if any((p.get("def") or "").endswith("Optionality::Optional") for p in hwalk(a["pat"])) and \
+                                any((x.get("def") or x.get("callee") or "").endswith("Optionality::Required") for x in hwalk(a["body"])):
+                            erasing.add(g)
+    callers = []
+    for g, t in F.hir.items():
+        f = F.fns.get(g)
+        if f is None or g == b or f.kind == "Closure" or "/src/print/" not in (f.file or ""):
+            continue
+        if any(n["k"] == "Call" and F._callee_gid(f.crate, n.get("callee") or "") == b for n in hwalk(t["body"])):
+            callers.append(g)
+    n = 0
+    for g in sorted(callers):
+        f = F.fns[g]
+        nodes = [x for x, _o in walk_inlined(F, g, private_only=True, _seen={g, b})]
+        if not any("Optionality<" in (x.get("ty") or "") for x in nodes):
+            continue          # a caller that is handed the discriminator already chosen
+        n += 1
+        er = []
+        for x in nodes:
+            if x["k"] in ("Call", "MethodCall"):
+                cal = x.get("resolved") or x.get("callee") or ""
+                tg = F._callee_gid(f.crate, cal)
+                if tg in erasing or re.sub(r"<[^<>]*>", "<T>", cal) in erasing:
+                    er.append((x, cal.rsplit("::", 1)[-1]))
+            if x["k"] == "Match":
+                for a in x["arms"]:
+                    for p in hwalk(a["pat"]):
+                        if (p.get("def") or "").endswith("Optionality::Optional") and any(q["k"] == "P.Binding" for q in hwalk(p)):
+                            er.append((a, "an arm that uses the payload of Optional"))
+        req = [p for x in nodes if x["k"] == "Match" for a in x["arms"] for p in hwalk(a["pat"]) if (p.get("def") or "").endswith("Optionality::Required")]
+        rep.ob(rid, "%s/no-optionality-erasure" % g.rsplit("::", 1)[-1], not er,
+               "%s chooses the discriminator of a union but reads a member's property through %s, which forgets whether the property is optional: a union whose shared literal key is optional in one member is emitted as a discriminated union, the validator then rejects values that omit the key although the member (and the printed anyOf schema) admits them" % (g, ", ".join(sorted({w for _, w in er}))),
+               "%s:%s" % (f.file, er[0][0].get("line") if er else f.line), sample={"fn": g})
+        rep.ob(rid, "%s/tests-required" % g.rsplit("::", 1)[-1], bool(req),
+               "%s chooses the discriminator of a union without testing that the property is `Optionality::Required` in the members" % g,
+               f.loc(), sample={"fn": g, "required_patterns": len(req)})
+    rep.floor(rid, "printer functions that choose a discriminator", n, 1)
